@@ -298,6 +298,49 @@ def check_case(ctx, cs):
         raise core.MachineryError("unknown op " + o["op"])
 
 
+def check_high_order(ctx):
+    """rational Bezier curves of degree 5 and 6, derivatives up to order 8 (beyond the lattice of the model, whose exact rational
+    values leave TLC's integers): the quotient rule C^(k) = (A^(k) - sum_i binom(k, i) w^(i) C^(k-i)) / w evaluated in exact
+    arithmetic on the power-basis form of the homogeneous curve"""
+    from fractions import Fraction as Fr
+    from math import comb, factorial
+    from geomdl import NURBS
+    ctx.full = {"high_order": True}
+    for n in (5, 6):
+        P = [[Fr((i * i + 2 * i) % 7 - 3), Fr((3 * i + i * i * i) % 5 - 2)] for i in range(n + 1)]
+        W = [Fr(w) for w in ([1, 2, 1, 3, 2, 1, 2][:n + 1])]
+        hom = [[P[i][0] * W[i], P[i][1] * W[i], W[i]] for i in range(n + 1)]
+        # Bernstein -> power basis, per coordinate
+        coef = [[comb(n, k) * sum((-1) ** (k - i) * comb(k, i) * hom[i][c] for i in range(k + 1)) for k in range(n + 1)] for c in range(3)]
+        for u in (Fr(1, 3), Fr(0), Fr(3, 4)):
+            def dpoly(c, k):
+                return sum(coef[c][j] * Fr(factorial(j), factorial(j - k)) * u ** (j - k) for j in range(k, n + 1))
+            order = 8
+            Ck = []
+            for k in range(order + 1):
+                v = [dpoly(0, k), dpoly(1, k)]
+                for i in range(1, k + 1):
+                    wi = dpoly(2, i)
+                    v = [v[d] - comb(k, i) * wi * Ck[k - i][d] for d in range(2)]
+                Ck.append([x / dpoly(2, 0) for x in v])
+            small = {"degree": n, "u": str(u), "order": order}
+            tg = ["curve", "rational", "bezier", "p=%d" % n, "order=%d" % order]
+            ctx.count(("high_order", n, str(u)), sample=small)
+            try:
+                c = NURBS.Curve()
+                c.degree = n
+                c.ctrlptsw = [[float(x) for x in q] for q in hom]
+                c.knotvector = [0.0] * (n + 1) + [1.0] * (n + 1)
+                got = c.derivatives(float(u), order=order)
+                for k in range(order + 1):
+                    sc = max(1.0, max(abs(float(x)) for x in Ck[k]))
+                    if any(abs(g - float(e)) > 1e-7 * sc for g, e in zip(got[k], Ck[k])):
+                        ctx.violate("NURBS.Curve.derivatives", tg + ["k=%d" % k], small, {"k": k, "expected": [float(x) for x in Ck[k]], "got": list(got[k])})
+                        break
+            except Exception as e:
+                ctx.violate("NURBS.Curve.derivatives", tg + ["raises"], small, {"exception": repr(e)[:200]})
+
+
 THEOREMS = ["T_Alg2 (A3.3/A3.4 and A3.7/A3.8 transcriptions = derivative of the definition)", "T_ZeroAboveDegree", "T_Order0",
             "T_Hodo (hodograph shapes evaluate to the first / mixed derivatives at every span sample)"]
 
@@ -311,6 +354,7 @@ def run(ctx):
     for tag, cs in res.cases:
         ops[cs["out"]["op"]] = ops.get(cs["out"]["op"], 0) + 1
         check_case(ctx, cs)
+    check_high_order(ctx)
     for need in ("ders", "hodo"):
         if not ops.get(need):
             raise core.MachineryError("vacuous model: action %s never taken" % need)
@@ -324,4 +368,6 @@ def run(ctx):
 
 
 def replay(ctx, v):
+    if "high_order" in v["full"]:
+        return check_high_order(ctx)
     check_case(ctx, v["full"])
